@@ -38,6 +38,24 @@ Proof.
   apply in_combine_l in Hin. apply in_seq in Hin. lia.
 Qed.
 
+Lemma in_combine_seq {A} (l : list A) : forall s i d, (i < length l)%nat -> In ((s + i)%nat, nth i l d) (combine (seq s (length l)) l).
+Proof.
+  induction l as [|h t IH]; intros s i d Hi; cbn [length] in *; [lia|].
+  cbn [seq combine]. destruct i as [|i]; [left; f_equal; lia|]. right.
+  replace (s + S i)%nat with (S s + i)%nat by lia. cbn [nth]. apply IH. lia.
+Qed.
+
+Lemma canon_order_complete vals v : (v < length vals)%nat -> In v (canon_order vals).
+Proof.
+  intros Hv. unfold canon_order.
+  assert (Hin : In (v, nth v vals (0, 0)) (combine (seq 0 (length vals)) vals)) by (apply (in_combine_seq vals 0 v); exact Hv).
+  apply (in_map fst) in Hin. cbn [fst] in Hin.
+  revert Hin. generalize (combine (seq 0 (length vals)) vals). intros l Hin.
+  apply in_map_iff in Hin as [p [Hp Hin]]. apply in_map_iff. exists p. split; [exact Hp|].
+  induction l as [|h t IH]; [destruct Hin|]. cbn [fold_right]. apply vinsert_in.
+  destruct Hin as [->|Hin]; [left; reflexivity|right; auto].
+Qed.
+
 Section Main.
 Variable vals : list (N * N).
 Notation ws := (map snd vals).
@@ -132,5 +150,66 @@ Proof.
   intros H1 H2 Hff I12 I21. apply prefix_antisym.
   - apply ref_blocks_prefix; auto.
   - apply ref_blocks_prefix; auto. eapply few_forkers_sub; eauto.
+Qed.
+(* ---------- the election of the reference does not err ---------- *)
+(* (a) a root never forkless-causes two roots of one validator in one frame (the implementation's
+       "forkless caused by 2 fork roots" error) *)
+Theorem ref_no_two_fork_roots T : wfT vals T -> few_forkers T ->
+  forall f r r1 r2, In r T -> In r1 (obs node nd_fr nd_spf fcn T r f) -> In r2 (obs node nd_fr nd_spf fcn T r f) ->
+    nd_cr r1 = nd_cr r2 -> r1 = r2.
+Proof.
+  intros Hwf Hff f r r1 r2 Hr H1 H2 Hc. unfold obs in H1, H2.
+  apply filter_In in H1 as [I1 F1]. apply filter_In in H2 as [I2 F2].
+  apply (ref_voted_root_unique T Hwf Hff f r1 r2 r r); assumption.
+Qed.
+
+(* (b) a root of frame f+1 is forkless-caused by a quorum of roots of frame f (the implementation's
+       "root must be forkless caused by at least 2/3W of prev roots" error) *)
+Theorem ref_prev_quorum T : wfT vals T -> forall f r, 1 <= f -> In r (roots_at node nd_fr nd_spf T (f + 1)) ->
+  quorum_on node nd_cr nd_fr nd_spf fcn ws q T r f = true.
+Proof. intros Hwf. apply (roots_quorum_n vals T Hwf). Qed.
+
+(* (c), (d) the reference never reports "all decided no" nor a yes decision without a voted root *)
+Theorem ref_decide_no_error T : wfT vals T -> few_forkers T -> (0 < nv)%nat ->
+  forall f0 maxf, 1 <= f0 ->
+    decide node nd_id nd_cr nd_fr nd_spf fcn ws q ord T f0 maxf <> AllNo /\
+    decide node nd_id nd_cr nd_fr nd_spf fcn ws q ord T f0 maxf <> NoRoot.
+Proof.
+  intros Hwf Hff Hnv f0 maxf Hf0. split; intros H.
+  - destruct (exists_never_no node nd_id nd_cr nd_fr nd_spf fcn ws q T lebn sees_fork_n q_gt
+                (wf_inj vals T Hwf) (fcn_char vals T Hwf) (lebn_trans vals T Hwf) (sfn_mono vals T Hwf) (forker T) Hff
+                (fun v x y _ => honest_chain_n vals T Hwf v x y) (roots_fork_n vals T Hwf) (roots_quorum_n vals T Hwf)
+                f0 Hf0) as [v [Hv Hnever]]; [rewrite map_length; exact Hnv|].
+    rewrite map_length in Hv.
+    destruct (decide_allno_inv node nd_id nd_cr nd_fr nd_spf fcn ws q ord T f0 (wf_inj vals T Hwf) maxf H v
+                (canon_order_complete vals v Hv)) as [k [r Hd]].
+    exact (Hnever k r Hd).
+  - destruct (decide_noroot_inv node nd_id nd_cr nd_fr nd_spf fcn ws q ord T f0 (wf_inj vals T Hwf) maxf H) as [v [k [r [Hd Hx]]]].
+    destruct (decided_yes_has_root node nd_id nd_cr nd_fr nd_spf fcn ws q T lebn sees_fork_n q_gt
+                (wf_inj vals T Hwf) (fcn_char vals T Hwf) (lebn_trans vals T Hwf) (sfn_mono vals T Hwf) (forker T) Hff
+                (fun v x y _ => honest_chain_n vals T Hwf v x y) (roots_fork_n vals T Hwf) (roots_quorum_n vals T Hwf)
+                f0 k r v Hd) as [a [r1 [Ia [Ca [I1 F1]]]]].
+    unfold voted_root in Hx. apply (find_none _ _ Hx) in Ia.
+    rewrite Ca, Nat.eqb_refl in Ia. cbn [andb] in Ia.
+    assert (existsb (fun r0 => fcn r0 a) (roots_at node nd_fr nd_spf T (f0 + 1)) = true); [|congruence].
+    apply existsb_exists. exists r1. auto.
+Qed.
+
+(* the decision of a frame in a well-formed table: exactly the rule-level statement *)
+Theorem ref_decide_iff T : wfT vals T -> few_forkers T -> forall f0 a,
+  decide node nd_id nd_cr nd_fr nd_spf fcn ws q ord T f0 (max_frame node nd_fr T) = Atropos a <->
+  exists pre v post x, ord = pre ++ v :: post
+    /\ (forall u, In u pre -> exists k r, decidesn T f0 k r u false)
+    /\ (exists k r, decidesn T f0 k r v true)
+    /\ voted_root node nd_cr nd_fr nd_spf fcn T f0 v = Some x /\ nd_id x = a.
+Proof.
+  intros Hwf Hff f0 a. split.
+  - apply decide_sound. apply (wf_inj vals T Hwf).
+  - intros [pre [v [post [x [Ho [Hpre [Hv [Hx <-]]]]]]]].
+    apply (decide_complete node nd_id nd_cr nd_fr nd_spf fcn ws q ord T f0 (wf_inj vals T Hwf) _ pre v post x); auto.
+    + apply (ref_decision_unique T Hwf Hff).
+    + intros e He. apply max_frame_ge. exact He.
+    + intros u Hu. rewrite map_length. apply canon_order_lt. rewrite Ho.
+      apply in_app_or in Hu as [Hu|[<-|[]]]; apply in_or_app; [left; exact Hu|right; left; reflexivity].
 Qed.
 End Main.
